@@ -103,9 +103,8 @@ def scenarios(rng, tier):
                                                                       "new / B Lab_t R8 3000 %d" % sd[3], "close"])],
                                                    script=["open m adf", "new / X Lab_t C1 5000 3", "del /L", "close"]))))
     out += extended(rng, tier)
-    if tier == "thorough":
-        out.append(dict(name="hdf5-compress", backend="hdf5", prep=[("f.cgns", w_h5[:5] + ["close"])],
-                        script=["open m hdf5", "new / Big0 Big_t R8 2000 %d" % r(), "del /Big0", "compress"]))
+    out.append(dict(name="hdf5-compress", backend="hdf5", prep=[("f.cgns", w_h5[:5] + ["close"])], all_hard=True, both_kinds=True,
+                    script=["open m hdf5", "new / Big0 Big_t R8 2000 %d" % r(), "del /Big0", "compress"]))
     for s in out:
         s.setdefault("files", ["f.cgns"])
     return corpus() + out
@@ -166,8 +165,21 @@ def extended(rng, tier):
                             "getcoord CoordinateY", "cgclose"]))
     out.append(dict(name="mll-save-as", backend="adf", prep=[("f.cgns", mw)], files=["f.cgns", "g.cgns"],
                     script=["cgopen m adf", "saveas g.cgns adf", "cgclose"]))
-    out.append(dict(name="mll-delete-compress", backend="adf", prep=[("f.cgns", mw)],
-                    script=["cgopen m adf", "cgdeldesc Info", "desc Info2 world", "cgclose"]))
+    # compress-on-close (cg_close after a deletion -> cgio_compress_file -> rewrite_file: copy into <file>.temp, close the copy,
+    # close the source, unlink, rename) on both back ends: EIO and ENOSPC at EVERY position, in particular at every call
+    # of the copy's close, whose status rewrite_file ignores
+    for be in ("adf", "hdf5"):
+        mwb = [x.replace("cgopen w adf", "cgopen w " + be) for x in mw]
+        out.append(dict(name="mll-delete-compress" + ("" if be == "adf" else "-hdf5"), backend=be, prep=[("f.cgns", mwb)], all_hard=True, both_kinds=True,
+                        script=["cgcompress 1", "cgopen m " + be, "cgdeldesc Info", "desc Info2 world", "cgclose"]))
+    # writes THROUGH a link into a second file, the write being the last operation before the close (ADFI_close_file closes
+    # the linked files first and overwrites their status), on both back ends
+    for be in ("adf",):            # (HDF5 refuses to re-dimension a node reached through an external link: status 90)
+        b2 = ["open w " + be, "new / T Tgt_t I4 50 %d" % r(), "new /T U Tgt_t I4 5 %d" % r(), "close"]
+        f2 = ["open w " + be, "new / A Lab_t I4 30 %d" % r(), "link / L b.cgns /T", "close"]
+        out.append(dict(name="link-writethrough-last-" + be, backend=be, prep=[("b.cgns", b2), ("f.cgns", f2)], files=["f.cgns", "b.cgns"],
+                        all_hard=True, both_kinds=True,
+                        script=["open m " + be, "setlabel /A Other_t", "wr /L I4 2000 %d" % r(), "new /L W Lab_t R8 700 %d" % r(), "close"]))
     for s in out:
         s["ext"] = True
     return out
@@ -197,6 +209,9 @@ def prepare(h, ipso, sc, d):
             raise vlib.Infra("cannot prepare %s of scenario %s: %s %s %s" % (fname, sc["name"], oc, st, err[-300:]))
 
 
+_ENDED = {}
+
+
 def session(h, pre, d, script, fault=None, trace=None, where=False):
     env_where = os.environ.get("VERIF_WHERE")
     # run_ip copies os.environ: the where shim is switched on through it (it stays passive without VERIF_WHERE)
@@ -213,6 +228,7 @@ def session(h, pre, d, script, fault=None, trace=None, where=False):
         else:
             os.environ["VERIF_WHERE"] = env_where
     st = [int(l.split()[1]) for l in lines if l.startswith("s ")]
+    _ENDED[os.path.abspath(d)] = bool(lines) and lines[-1] == "end"          # the session ran to its end (the harness prints `end` last)
     return st, oc, err
 
 
@@ -373,8 +389,12 @@ def fault_case(h, ipso, base, work, sc, faults, nops, ideal, tag):
         os.unlink(trf)
     res = {"faults": faults, "statuses": st, "outcome": oc, "injected": [(c["name"], c["path"], c["inj"]) for c in injected],
            "problem": None, "stderr": err[-400:] if oc != "ok" else ""}
-    all_ok = oc == "ok" and len(st) == nops and all(s == 0 for s in st)
-    if oc != "ok" or len(st) != nops:
+    ended = _ENDED.pop(os.path.abspath(d), False)
+    # a crash in the exit handlers AFTER the session ran to its end (libhdf5's teardown after a failed H5Fclose) must not hide
+    # what the session left behind: every status is known, so "all statuses 0 => content intact" is still evaluated
+    crash_at_exit = oc != "ok" and oc != "timeout" and len(st) == nops    # (`end` itself is lost: stdout is not flushed by the abort)
+    all_ok = (oc == "ok" or crash_at_exit) and len(st) == nops and all(s == 0 for s in st)
+    if (oc != "ok" or len(st) != nops) and not (crash_at_exit and all_ok):
         res["problem"] = "crash"
     elif all_ok:
         got, doc = dump(h, d, sc["files"])
@@ -387,6 +407,10 @@ def fault_case(h, ipso, base, work, sc, faults, nops, ideal, tag):
             for (s0, b0), (s1, b1) in zip(ideal, got):
                 diff += [l for l in b0 if l not in b1][:3] + ["--- got (%s):" % s1] + [l for l in b1 if l not in b0][:3]
             res["diff"] = diff[:12]
+        if crash_at_exit:
+            res["crash_at_exit"] = oc
+            if not res["problem"]:
+                res["problem"] = "crash"
     shutil.rmtree(d, ignore_errors=True)
     return res
 
@@ -608,6 +632,8 @@ def run_extra(ck, standalone=False):
             nsample = 0                                               # the search is after a broken row this session cannot reach
         for k in others[:nsample]:
             jobs.append((k, "eio"))
+        if sc.get("both_kinds"):
+            jobs += [(k, kd) for (k, _) in list(jobs) for kd in HARD[calls[k]["name"]]]
         jobs = sorted(set(jobs))
         # the machine's verdict along each stack
         orc = {k: oracle_of(tab, chains[k], wrappers) for k, _ in jobs}
